@@ -86,6 +86,11 @@ func prop(t *rapid.T) {
 		// For overlapping routes the reference resolver says whether the built URL belongs to the named route.
 		p := model.GenPattern(t, model.GenCfg{MaxSegs: 3, MaxOpt: 1, RichLits: true})
 		p.Opt, p.TrailSlash = nil, false
+		if strict && rapid.IntRange(0, 3).Draw(t, "trailingSlash") == 0 {
+			// under StrictLastSlash a trailing slash belongs to the route: the built URL has to keep it
+			p.TrailSlash = true
+			ev.Class("route:trailing-slash-under-strict-mode")
+		}
 		shape := rapid.IntRange(0, 5).Draw(t, "shape")
 		if len(p.Segs) == 0 {
 			shape = 5 // the index route of a group keeps a trailing slash under StrictLastSlash (C11/C12's business)
